@@ -1,7 +1,452 @@
-(* Facts about the content-index fold (E5 / C10). *)
+(* Facts about the content-index fold (E5 / C10): inactive rows, nested indexes in place and
+   the fuel they need, the fold over a history.  The registries' declarative reading is in
+   IndexRegFacts.v, workbooks in WorkbookFacts.v, the tag matcher in TagMatchFacts.v. *)
 From Coq Require Import List NArith ZArith Bool Lia.
-From RPFT Require Import Base.Sexp Base.PyStr Base.Result Base.ODict Gen.Tables Index.TagMatch Index.Index.
+From RPFT Require Import Base.Sexp Base.PyStr Base.PyStrFacts Base.Result Base.ODict Gen.Tables
+     Index.TagMatch Index.Index Index.DictFacts Index.IndexSpec.
 Import ListNotations.
 
 Lemma ignore_never_template : forall n st, st_templates (ignore_row n st) = st_templates st.
 Proof. reflexivity. Qed.
+
+(* ------------------------------------------------------------ unfolding *)
+
+Lemma process_with_nil rec pats wbs st : process_with rec pats wbs [] st = Ok st.
+Proof. reflexivity. Qed.
+
+Lemma process_with_cons rec pats wbs r rest st :
+  process_with rec pats wbs (r :: rest) st =
+  match step_row rec pats wbs r st with
+  | Err e => Err e
+  | Ok st' => process_with rec pats wbs rest st'
+  end.
+Proof. reflexivity. Qed.
+
+Definition rec_of (fuel : nat) (pats : patterns) (wbs : list workbook) : list irow -> state -> result err state :=
+  match fuel with 0 => no_fuel | S f => process f pats wbs end.
+
+Lemma process_unfold fuel pats wbs :
+  process fuel pats wbs = process_with (rec_of fuel pats wbs) pats wbs.
+Proof. destruct fuel; reflexivity. Qed.
+
+Definition erec_of (fuel : nat) (pats : patterns) (wbs : list workbook) : list irow -> option (list item) :=
+  match fuel with 0 => fun _ => None | S f => expand f pats wbs end.
+
+Lemma expand_unfold fuel pats wbs :
+  expand fuel pats wbs = expand_with (erec_of fuel pats wbs) pats wbs.
+Proof. destruct fuel; reflexivity. Qed.
+
+Lemma expand_with_nil rec pats wbs : expand_with rec pats wbs [] = Some [].
+Proof. reflexivity. Qed.
+
+Lemma expand_with_cons rec pats wbs r rest :
+  expand_with rec pats wbs (r :: rest) =
+  match nestable pats wbs r with
+  | None => option_map (cons (IRow r)) (expand_with rec pats wbs rest)
+  | Some sub =>
+    match rec sub, expand_with rec pats wbs rest with
+    | Some t, Some ts => Some (INest r t :: ts)
+    | _, _ => None
+    end
+  end.
+Proof. reflexivity. Qed.
+
+Lemma process_with_app rec pats wbs a b st :
+  process_with rec pats wbs (a ++ b) st =
+  match process_with rec pats wbs a st with
+  | Err e => Err e
+  | Ok st' => process_with rec pats wbs b st'
+  end.
+Proof.
+  revert st. induction a as [|r a IH]; intros st; [reflexivity|].
+  cbn [app]. rewrite !process_with_cons. destruct (step_row rec pats wbs r st); [apply IH|reflexivity].
+Qed.
+
+(* ------------------------------------------------------------ 1. inactive rows *)
+
+Lemma active_false_iff pats r :
+  active pats r = false <-> r_status r = ci_draft \/ matches pats (r_tags r) = false.
+Proof.
+  unfold active. rewrite andb_false_iff, negb_false_iff, str_eqb_eq. reflexivity.
+Qed.
+
+Lemma nestable_active pats wbs r sub : nestable pats wbs r = Some sub -> active pats r = true.
+Proof. unfold nestable. destruct (active pats r); [reflexivity|discriminate]. Qed.
+
+Lemma step_row_inactive rec pats wbs r st :
+  active pats r = false -> step_row rec pats wbs r st = Ok st.
+Proof. intros H. unfold step_row. rewrite H. reflexivity. Qed.
+
+(* a draft row, or a row whose tags fail the filter, leaves the state unchanged — whatever its
+   type, sheet names (even malformed) and whatever the nested tables contain *)
+Lemma inactive_row_no_effect rec pats wbs r st :
+  r_status r = ci_draft \/ matches pats (r_tags r) = false ->
+  step_row rec pats wbs r st = Ok st.
+Proof. intros H. apply step_row_inactive, active_false_iff, H. Qed.
+
+Lemma process_with_filter rec pats wbs rows st :
+  process_with rec pats wbs rows st = process_with rec pats wbs (filter (active pats) rows) st.
+Proof.
+  revert st. induction rows as [|r rest IH]; intros st; [reflexivity|].
+  cbn [filter]. destruct (active pats r) eqn:Ea.
+  - rewrite !process_with_cons. destruct (step_row rec pats wbs r st); [apply IH|reflexivity].
+  - rewrite process_with_cons, step_row_inactive by exact Ea. apply IH.
+Qed.
+
+Theorem inactive_no_effect fuel pats wbs rows st :
+  process fuel pats wbs rows st = process fuel pats wbs (filter (active pats) rows) st.
+Proof. rewrite process_unfold. apply process_with_filter. Qed.
+
+(* inserting inactive rows anywhere changes nothing *)
+Corollary inactive_rows_anywhere fuel pats wbs pre junk post st :
+  forallb (fun r => negb (active pats r)) junk = true ->
+  process fuel pats wbs (pre ++ junk ++ post) st = process fuel pats wbs (pre ++ post) st.
+Proof.
+  intros H. rewrite (inactive_no_effect fuel pats wbs (pre ++ junk ++ post)),
+                    (inactive_no_effect fuel pats wbs (pre ++ post)).
+  rewrite !filter_app. replace (filter (active pats) junk) with (@nil irow); [reflexivity|].
+  symmetry. induction junk as [|x l IH]; [reflexivity|]. cbn in H. apply andb_true_iff in H as [H1 H2].
+  cbn. apply negb_true_iff in H1. rewrite H1. apply IH, H2.
+Qed.
+
+(* ------------------------------------------------------------ index trees *)
+
+Section ItemInd.
+Variable P : item -> Prop.
+Hypothesis HRow : forall r, P (IRow r).
+Hypothesis HNest : forall r sub, Forall P sub -> P (INest r sub).
+Fixpoint item_ind' (i : item) : P i :=
+  match i with
+  | IRow r => HRow r
+  | INest r sub =>
+    HNest r sub ((fix go (l : list item) : Forall P l :=
+                    match l with
+                    | [] => Forall_nil P
+                    | x :: l' => Forall_cons x (item_ind' x) (go l')
+                    end) sub)
+  end.
+End ItemInd.
+
+Lemma run_item_nest pats wbs r sub st :
+  run_item pats wbs (INest r sub) st = if active pats r then run_tree pats wbs sub st else Ok st.
+Proof.
+  cbn [run_item]. destruct (active pats r); [|reflexivity].
+  revert st. induction sub as [|x l IH]; intros st; [reflexivity|].
+  cbn [run_tree].
+  destruct (run_item pats wbs x st); [apply IH|reflexivity].
+Qed.
+
+Lemma flatten_item_nest pats r sub :
+  flatten_item pats (INest r sub) = if active pats r then flatten pats sub else [].
+Proof.
+  cbn [flatten_item]. destruct (active pats r); [|reflexivity].
+  induction sub as [|x l IH]; [reflexivity|]. cbn [flatten]. rewrite <- IH. reflexivity.
+Qed.
+
+Lemma depth_item_nest r sub : depth_item (INest r sub) = S (depth sub).
+Proof.
+  reflexivity.
+Qed.
+
+Lemma run_tree_app pats wbs a b st :
+  run_tree pats wbs (a ++ b) st =
+  match run_tree pats wbs a st with Err e => Err e | Ok st' => run_tree pats wbs b st' end.
+Proof.
+  revert st. induction a as [|x a IH]; intros st; [reflexivity|].
+  cbn [app run_tree]. destruct (run_item pats wbs x st); [apply IH|reflexivity].
+Qed.
+
+Lemma run_rows_app wbs a b st :
+  run_rows wbs (a ++ b) st =
+  match run_rows wbs a st with Err e => Err e | Ok st' => run_rows wbs b st' end.
+Proof.
+  unfold run_rows. revert st. induction a as [|x a IH]; intros st; [reflexivity|].
+  cbn [app foldM]. destruct (step_other wbs x st); [apply IH|reflexivity].
+Qed.
+
+Lemma flatten_app pats a b : flatten pats (a ++ b) = flatten pats a ++ flatten pats b.
+Proof. induction a as [|x a IH]; [reflexivity|]. cbn [app flatten]. rewrite IH, app_assoc. reflexivity. Qed.
+
+(* a tree is run exactly as the list of its active rows, nested tables in place *)
+Lemma run_item_flatten pats wbs i :
+  forall st, run_item pats wbs i st = run_rows wbs (flatten_item pats i) st.
+Proof.
+  induction i as [r|r sub IH] using item_ind'; intros st.
+  - cbn [run_item flatten_item]. destruct (active pats r); [|reflexivity].
+    unfold run_rows. cbn [foldM]. destruct (step_other wbs r st); reflexivity.
+  - rewrite run_item_nest, flatten_item_nest. destruct (active pats r); [|reflexivity].
+    revert st. induction IH as [|x l Hx Hl IHl]; intros st; [reflexivity|].
+    cbn [run_tree flatten]. rewrite run_rows_app, Hx. destruct (run_rows wbs (flatten_item pats x) st); [apply IHl|reflexivity].
+Qed.
+
+Theorem run_tree_flatten pats wbs t st :
+  run_tree pats wbs t st = run_rows wbs (flatten pats t) st.
+Proof.
+  revert st. induction t as [|x l IH]; intros st; [reflexivity|].
+  cbn [run_tree flatten]. rewrite run_rows_app, run_item_flatten.
+  destruct (run_rows wbs (flatten_item pats x) st); [apply IH|reflexivity].
+Qed.
+
+(* ------------------------------------------------------------ 2. nested indexes, fuel *)
+
+(* the fold over index rows is the run of the tree the rows unfold to *)
+Lemma process_with_expand_with rec_p rec_e pats wbs :
+  (forall sub t st, rec_e sub = Some t -> rec_p sub st = run_tree pats wbs t st) ->
+  forall rows t st, expand_with rec_e pats wbs rows = Some t ->
+                    process_with rec_p pats wbs rows st = run_tree pats wbs t st.
+Proof.
+  intros Hrec. induction rows as [|r rest IH]; intros t st He.
+  - rewrite expand_with_nil in He. injection He as <-. reflexivity.
+  - rewrite expand_with_cons in He. rewrite process_with_cons. unfold step_row.
+    destruct (nestable pats wbs r) as [sub|] eqn:En.
+    + rewrite (nestable_active _ _ _ _ En).
+      destruct (rec_e sub) as [t1|] eqn:E1; [|discriminate].
+      destruct (expand_with rec_e pats wbs rest) as [ts|] eqn:E2; [|discriminate].
+      injection He as <-. cbn [run_tree]. rewrite run_item_nest, (nestable_active _ _ _ _ En).
+      rewrite (Hrec sub t1 st E1). destruct (run_tree pats wbs t1 st); [apply IH; reflexivity|reflexivity].
+    + destruct (expand_with rec_e pats wbs rest) as [ts|] eqn:E2; [|discriminate].
+      cbn in He. injection He as <-. cbn [run_tree run_item].
+      destruct (active pats r).
+      * destruct (step_other wbs r st); [apply IH; reflexivity|reflexivity].
+      * apply IH; reflexivity.
+Qed.
+
+Theorem process_expand fuel pats wbs rows t st :
+  expand fuel pats wbs rows = Some t ->
+  process fuel pats wbs rows st = run_tree pats wbs t st.
+Proof.
+  revert rows t st. induction fuel as [|f IH]; intros rows t st He.
+  - rewrite process_unfold. rewrite expand_unfold in He.
+    apply (process_with_expand_with _ (erec_of 0 pats wbs)); [|exact He]. intros sub t0 st0 H. discriminate.
+  - rewrite process_unfold. rewrite expand_unfold in He.
+    apply (process_with_expand_with _ (erec_of (S f) pats wbs)); [|exact He]. intros sub t0 st0 H. apply IH, H.
+Qed.
+
+(* more fuel never changes the tree *)
+Lemma expand_with_mono rec1 rec2 pats wbs :
+  (forall sub t, rec1 sub = Some t -> rec2 sub = Some t) ->
+  forall rows t, expand_with rec1 pats wbs rows = Some t -> expand_with rec2 pats wbs rows = Some t.
+Proof.
+  intros Hrec. induction rows as [|r rest IH]; intros t He; [exact He|].
+  rewrite expand_with_cons in *. destruct (nestable pats wbs r) as [sub|].
+  - destruct (rec1 sub) as [t1|] eqn:E1; [|discriminate].
+    destruct (expand_with rec1 pats wbs rest) as [ts|] eqn:E2; [|discriminate].
+    rewrite (Hrec _ _ E1), (IH _ eq_refl). exact He.
+  - destruct (expand_with rec1 pats wbs rest) as [ts|] eqn:E2; [|discriminate].
+    rewrite (IH _ eq_refl). exact He.
+Qed.
+
+Lemma expand_S fuel pats wbs rows t :
+  expand fuel pats wbs rows = Some t -> expand (S fuel) pats wbs rows = Some t.
+Proof.
+  revert rows t. induction fuel as [|f IH]; intros rows t He.
+  - rewrite expand_unfold in *. revert He. apply expand_with_mono. intros sub t0 H. discriminate.
+  - rewrite (expand_unfold (S (S f))). rewrite (expand_unfold (S f)) in He. revert He.
+    apply expand_with_mono. intros sub t0 H. apply IH, H.
+Qed.
+
+Lemma expand_le fuel fuel' pats wbs rows t :
+  fuel <= fuel' -> expand fuel pats wbs rows = Some t -> expand fuel' pats wbs rows = Some t.
+Proof. intros Hle He. induction Hle as [|m Hle IH]; [exact He|apply expand_S, IH]. Qed.
+
+(* the fuel a table needs is the nesting depth of its tree: never less ... *)
+Lemma expand_with_depth rec pats wbs n :
+  (forall sub t, rec sub = Some t -> S (depth t) <= n) ->
+  forall rows t, expand_with rec pats wbs rows = Some t -> depth t <= n.
+Proof.
+  intros Hrec. induction rows as [|r rest IH]; intros t He.
+  - injection He as <-. cbn. lia.
+  - rewrite expand_with_cons in He. destruct (nestable pats wbs r) as [sub|].
+    + destruct (rec sub) as [t1|] eqn:E1; [|discriminate].
+      destruct (expand_with rec pats wbs rest) as [ts|] eqn:E2; [|discriminate].
+      injection He as <-. cbn [depth]. rewrite depth_item_nest.
+      specialize (Hrec _ _ E1). specialize (IH _ eq_refl). lia.
+    + destruct (expand_with rec pats wbs rest) as [ts|] eqn:E2; [|discriminate].
+      cbn in He. injection He as <-. cbn [depth depth_item]. specialize (IH _ eq_refl). lia.
+Qed.
+
+Lemma expand_depth fuel pats wbs rows t :
+  expand fuel pats wbs rows = Some t -> depth t <= fuel.
+Proof.
+  revert rows t. induction fuel as [|f IH]; intros rows t He; rewrite expand_unfold in He.
+  - apply (expand_with_depth _ _ _ 0) in He; [exact He|]. intros sub t0 H. discriminate.
+  - apply (expand_with_depth _ _ _ (S f)) in He; [exact He|]. intros sub t0 H. apply IH in H. lia.
+Qed.
+
+(* ... and never more *)
+Lemma expand_with_transfer rec1 rec2 pats wbs (P : list item -> Prop) :
+  (forall sub t, rec1 sub = Some t -> P t -> rec2 sub = Some t) ->
+  forall rows t, expand_with rec1 pats wbs rows = Some t ->
+                 (forall r t', In (INest r t') t -> P t') ->
+                 expand_with rec2 pats wbs rows = Some t.
+Proof.
+  intros Hrec. induction rows as [|r rest IH]; intros t He HP; [exact He|].
+  rewrite expand_with_cons in *. destruct (nestable pats wbs r) as [sub|].
+  - destruct (rec1 sub) as [t1|] eqn:E1; [|discriminate].
+    destruct (expand_with rec1 pats wbs rest) as [ts|] eqn:E2; [|discriminate].
+    injection He as <-. rewrite (Hrec _ _ E1) by (apply (HP r); left; reflexivity).
+    rewrite (IH _ eq_refl); [reflexivity|]. intros r' t' Hin. apply (HP r'). right. exact Hin.
+  - destruct (expand_with rec1 pats wbs rest) as [ts|] eqn:E2; [|discriminate].
+    cbn in He. injection He as <-. rewrite (IH _ eq_refl); [reflexivity|].
+    intros r' t' Hin. apply (HP r'). right. exact Hin.
+Qed.
+
+Lemma depth_in_nest r t' t : In (INest r t') t -> S (depth t') <= depth t.
+Proof.
+  induction t as [|x l IH]; [intros []|]. intros [H|H]; cbn [depth].
+  - subst x. rewrite depth_item_nest. lia.
+  - specialize (IH H). lia.
+Qed.
+
+Lemma expand_depth_enough fuel fuel' pats wbs rows t :
+  expand fuel pats wbs rows = Some t -> depth t <= fuel' -> expand fuel' pats wbs rows = Some t.
+Proof.
+  revert fuel rows t. induction fuel' as [|f' IH]; intros fuel rows t He Hd.
+  - rewrite expand_unfold in *.
+    apply (expand_with_transfer (erec_of fuel pats wbs) (erec_of 0 pats wbs) pats wbs (fun _ => False)) with (t := t); [|exact He|].
+    + intros sub t0 _ [].
+    + intros r t' Hin. apply depth_in_nest in Hin. lia.
+  - rewrite expand_unfold in He. rewrite expand_unfold.
+    apply (expand_with_transfer (erec_of fuel pats wbs) (erec_of (S f') pats wbs) pats wbs (fun t' => depth t' <= f')) with (t := t); [|exact He|].
+    + intros sub t0 H Hd0. destruct fuel as [|f]; [discriminate|]. cbn [erec_of] in *. apply (IH f); assumption.
+    + intros r t' Hin. apply depth_in_nest in Hin. lia.
+Qed.
+
+(* the fuel bound, explicitly: a table unfolds with fuel [f] iff it unfolds at all and
+   [f] is at least the nesting depth of its tree *)
+Theorem fuel_bound fuel pats wbs rows t :
+  expand fuel pats wbs rows = Some t <->
+  (exists f0, expand f0 pats wbs rows = Some t) /\ depth t <= fuel.
+Proof.
+  split.
+  - intros H. split; [exists fuel; exact H|apply (expand_depth _ _ _ _ _ H)].
+  - intros [[f0 H] Hd]. apply (expand_depth_enough f0); assumption.
+Qed.
+
+Lemma expand_with_app rec pats wbs a b :
+  expand_with rec pats wbs (a ++ b) =
+  match expand_with rec pats wbs a, expand_with rec pats wbs b with
+  | Some ta, Some tb => Some (ta ++ tb)
+  | _, _ => None
+  end.
+Proof.
+  induction a as [|r a IH].
+  - cbn [app]. rewrite expand_with_nil. destruct (expand_with rec pats wbs b); reflexivity.
+  - cbn [app]. rewrite !expand_with_cons, IH. destruct (nestable pats wbs r) as [sub|].
+    + destruct (rec sub) as [t1|]; [|reflexivity].
+      destruct (expand_with rec pats wbs a) as [ta|]; [|reflexivity].
+      destruct (expand_with rec pats wbs b) as [tb|]; reflexivity.
+    + destruct (expand_with rec pats wbs a) as [ta|]; [|reflexivity].
+      destruct (expand_with rec pats wbs b) as [tb|]; reflexivity.
+Qed.
+
+(* an active content_index row whose sheet resolves to an index table is exactly the rows
+   of that table written in its place — state (or error) equal, provided the fuel covers
+   the nesting depth ([expand fuel ... = Some t], i.e. [depth t <= fuel] by [fuel_bound]) *)
+Theorem nested_in_place fuel pats wbs pre r sub post t st :
+  nestable pats wbs r = Some sub ->
+  expand fuel pats wbs (pre ++ r :: post) = Some t ->
+  process fuel pats wbs (pre ++ r :: post) st = process fuel pats wbs (pre ++ sub ++ post) st.
+Proof.
+  intros Hn He. rewrite expand_unfold, expand_with_app, expand_with_cons, Hn in He.
+  destruct (expand_with (erec_of fuel pats wbs) pats wbs pre) as [tpre|]; [|discriminate].
+  destruct (erec_of fuel pats wbs sub) as [t1|] eqn:E1; [|discriminate].
+  destruct fuel as [|f]; [discriminate|]. cbn [erec_of] in E1.
+  rewrite process_unfold, !process_with_app. cbn [rec_of].
+  destruct (process_with (process f pats wbs) pats wbs pre st) as [st1|e]; [|reflexivity].
+  rewrite process_with_cons, process_with_app. unfold step_row. rewrite (nestable_active _ _ _ _ Hn), Hn.
+  rewrite (process_expand _ _ _ _ _ st1 E1).
+  change (process_with (process f pats wbs) pats wbs sub st1) with (process (S f) pats wbs sub st1).
+  rewrite (process_expand _ _ _ _ _ st1 (expand_S _ _ _ _ _ E1)). reflexivity.
+Qed.
+
+(* ... and the histories are the same *)
+Theorem nested_in_place_history fuel pats wbs pre r sub post t :
+  nestable pats wbs r = Some sub ->
+  expand fuel pats wbs (pre ++ r :: post) = Some t ->
+  exists t', expand fuel pats wbs (pre ++ sub ++ post) = Some t' /\ flatten pats t' = flatten pats t.
+Proof.
+  intros Hn He. rewrite expand_unfold, expand_with_app, expand_with_cons, Hn in He.
+  destruct (expand_with (erec_of fuel pats wbs) pats wbs pre) as [tpre|] eqn:Epre; [|discriminate].
+  destruct (erec_of fuel pats wbs sub) as [t1|] eqn:E1; [|discriminate].
+  destruct (expand_with (erec_of fuel pats wbs) pats wbs post) as [tpost|] eqn:Epost; [|discriminate].
+  injection He as <-.
+  destruct fuel as [|f]; [discriminate|]. cbn [erec_of] in E1.
+  apply expand_S in E1. rewrite expand_unfold in E1.
+  exists (tpre ++ t1 ++ tpost). split.
+  - rewrite expand_unfold, !expand_with_app, Epre, E1, Epost. reflexivity.
+  - rewrite !flatten_app. cbn [flatten]. rewrite flatten_item_nest, (nestable_active _ _ _ _ Hn). reflexivity.
+Qed.
+
+(* a run that ends well never ran out of fuel: its rows unfold to a tree *)
+Lemma process_with_ok_expand rec_p rec_e pats wbs :
+  (forall sub st st', rec_p sub st = Ok st' -> exists t, rec_e sub = Some t) ->
+  forall rows st st', process_with rec_p pats wbs rows st = Ok st' ->
+                      exists t, expand_with rec_e pats wbs rows = Some t.
+Proof.
+  intros Hrec. induction rows as [|r rest IH]; intros st st' Hp.
+  - exists []. reflexivity.
+  - rewrite process_with_cons in Hp. rewrite expand_with_cons. unfold step_row in Hp.
+    destruct (nestable pats wbs r) as [sub|] eqn:En.
+    + rewrite (nestable_active _ _ _ _ En) in Hp.
+      destruct (rec_p sub st) as [st1|e] eqn:E1; [|discriminate].
+      destruct (Hrec _ _ _ E1) as [t1 ->]. destruct (IH _ _ Hp) as [ts ->]. eexists. reflexivity.
+    + assert (Hrest : exists st1, process_with rec_p pats wbs rest st1 = Ok st').
+      { destruct (active pats r); [|exists st; exact Hp].
+        destruct (step_other wbs r st) as [st1|e]; [exists st1; exact Hp|discriminate]. }
+      destruct Hrest as [st1 H1]. destruct (IH _ _ H1) as [ts ->]. eexists. reflexivity.
+Qed.
+
+Lemma process_ok_expand fuel pats wbs rows st st' :
+  process fuel pats wbs rows st = Ok st' -> exists t, expand fuel pats wbs rows = Some t.
+Proof.
+  revert rows st st'. induction fuel as [|f IH]; intros rows st st' Hp;
+    rewrite process_unfold in Hp; rewrite expand_unfold.
+  - apply (process_with_ok_expand _ (erec_of 0 pats wbs)) in Hp; [exact Hp|]. intros sub s s' H. discriminate.
+  - apply (process_with_ok_expand _ (erec_of (S f) pats wbs)) in Hp; [exact Hp|]. intros sub s s' H. apply (IH _ _ _ H).
+Qed.
+
+(* the fold over an index table is the plain fold over its history *)
+Theorem process_history fuel pats wbs rows t st :
+  expand fuel pats wbs rows = Some t ->
+  process fuel pats wbs rows st = run_rows wbs (flatten pats t) st.
+Proof. intros He. rewrite (process_expand _ _ _ _ _ st He). apply run_tree_flatten. Qed.
+
+(* all root index sheets, in candidate (= reader = input) order, on one state *)
+Theorem process_indices_history fuel pats wbs idxs h st :
+  histories fuel pats wbs idxs = Some h ->
+  process_indices fuel pats wbs idxs st = run_rows wbs h st.
+Proof.
+  revert h st. induction idxs as [|[id b] rest IH]; intros h st Hh.
+  - injection Hh as <-. reflexivity.
+  - cbn [histories] in Hh. destruct b as [rows| | | |]; try discriminate.
+    destruct (expand fuel pats wbs rows) as [t|] eqn:Et; [|discriminate].
+    destruct (histories fuel pats wbs rest) as [h'|] eqn:Eh; [|discriminate].
+    injection Hh as <-. cbn [process_indices]. rewrite (process_history _ _ _ _ _ st Et), run_rows_app.
+    destruct (run_rows wbs (flatten pats t) st); [apply IH; reflexivity|reflexivity].
+Qed.
+
+Lemma process_indices_ok_history fuel pats wbs idxs st st' :
+  process_indices fuel pats wbs idxs st = Ok st' -> exists h, histories fuel pats wbs idxs = Some h.
+Proof.
+  revert st. induction idxs as [|[id b] rest IH]; intros st Hp.
+  - exists []. reflexivity.
+  - cbn [process_indices] in Hp. destruct b as [rows| | | |]; try discriminate.
+    destruct (process fuel pats wbs rows st) as [st1|e] eqn:E1; [|discriminate].
+    destruct (process_ok_expand _ _ _ _ _ _ E1) as [t Ht]. destruct (IH _ Hp) as [h' Hh'].
+    cbn [histories]. rewrite Ht, Hh'. eexists. reflexivity.
+Qed.
+
+Theorem load_history fuel pats wbs st :
+  load fuel pats wbs = Ok st ->
+  exists h st1, candidates wbs ci_root_sheet <> [] /\
+                history fuel pats wbs = Some h /\
+                run_rows wbs h st0 = Ok st1 /\
+                populate wbs (st_flows st1) st1 = Ok st.
+Proof.
+  unfold load, history. intros Hl. destruct (candidates wbs ci_root_sheet) as [|c cs] eqn:Ec; [discriminate|].
+  destruct (process_indices fuel pats wbs (c :: cs) st0) as [st1|e] eqn:Ep; [|discriminate].
+  destruct (process_indices_ok_history _ _ _ _ _ _ Ep) as [h Hh].
+  exists h, st1. split; [discriminate|]. split; [exact Hh|]. split; [|exact Hl].
+  rewrite <- (process_indices_history _ _ _ _ _ st0 Hh). exact Ep.
+Qed.
